@@ -534,3 +534,65 @@ def responder_typestate(ctx, W, group):
                       "; ".join("%s on %s without a reset since the last send_responses" % (what, ".".join(k[1]) or "the responder") for bb, k, what in mine),
                       fn.loc(mine[0][0]) if mine else ctx.loc(fn))
     ctx.floor(group + "-typestate", judged, 2, "functions that add to / send from a responder")
+
+
+# ---------------------------------------------------------------------------------------------------------------------- queue and tree in lock-step
+def queue_lockstep(ctx, W, group):
+    """INDX = position in `Responder.requests`, PATH = get_paths(that position): the queue and the leaves of the tree must stay in lock-step.  That
+    holds when the queue is only ever changed together with the tree: a push beside a push_leaf (the add_* methods), a clear beside the tree's reset,
+    and nothing else - no dedup / retain / remove / sort / truncate / swap / insert on the queue, no assignment to it after construction."""
+    P = W.prog
+    QR = queue_roles(ctx, W) if False else None
+    qfield = "requests"
+    tfields = [x["name"] for x in P.adts[RESPONDER]["variants"][0]["fields"] if x["ty"].endswith("merkle::MerkleTree")]
+    if not tfields or not any(x["name"] == qfield for x in P.adts[RESPONDER]["variants"][0]["fields"]):
+        raise AnchorMissing("Responder.requests and a MerkleTree field of Responder")
+    tfield = tfields[0]
+    READS = ("iter", "len", "is_empty", "get", "first", "last", "as_slice", "deref", "index", "into_iter", "as_ref", "capacity", "chunks", "windows", "enumerate", "clone", "fmt")
+    CAPACITY = ("reserve", "reserve_exact", "shrink_to_fit", "shrink_to")
+    n = 0
+    for fn in P.fns.values():
+        if fn.derived:
+            continue
+        ev = None
+        per_fn = {"push": [], "clear": [], "other": []}
+        tree = {"push_leaf": [], "reset": []}
+        for bb, t in fn.calls():
+            if not t.get("args"):
+                continue
+            a0 = t["args"][0]
+            pl = a0.get("mv") or a0.get("cp")
+            if pl is None:
+                continue
+            ev = ev or W.ev(fn.path)
+            recv = ev.call_args(bb)[0]
+            aps = _access_paths(recv)
+            name = callee_name(t["fn"].get("path", ""))
+            for (root, pth) in aps:
+                if pth[-1:] == (qfield,) and (t.get("arg_tys") or [""])[0].startswith("&mut"):
+                    # the receiver type tells the queue apart from a same-named field of another type
+                    if "SocketAddr" not in (t.get("arg_tys") or [""])[0] and "Vec" not in (t.get("arg_tys") or [""])[0]:
+                        continue
+                    if name in CAPACITY or name in READS:
+                        continue
+                    if fn.path == SEND and name in ("clear", "drain"):
+                        continue        # emptying the queue while / after answering it: the batch is over (a new one needs reset: typestate)
+                    per_fn["push" if name == "push" else "clear" if name == "clear" else "other"].append((bb, name))
+                if pth[-1:] == (tfield,) and name in tree:
+                    tree[name].append(bb)
+        sites = per_fn["push"] + per_fn["clear"] + per_fn["other"]
+        if not sites:
+            continue
+        n += 1
+        okp = len(per_fn["push"]) == len(tree["push_leaf"]) and all(any(fn.dominates(p, l) or fn.dominates(l, p) for l in tree["push_leaf"]) for p, _ in per_fn["push"])
+        okc = all(any(fn.dominates(c, r) or fn.dominates(r, c) for r in tree["reset"]) for c, _ in per_fn["clear"])
+        oko = not per_fn["other"]
+        ctx.check(group, "queue-in-lockstep/%s" % fn.path.split("::", 1)[-1], okp and okc and oko,
+                  "the request queue changes only together with the tree (%d push beside push_leaf, %d clear beside reset)" % (len(per_fn["push"]), len(per_fn["clear"])),
+                  "%s changes the request queue without the tree (%s): positions in the queue no longer match the leaves, so INDX / PATH of later requests prove another leaf"
+                  % (fn.path.split("::", 1)[-1], ", ".join("%s()" % nm for _b, nm in (per_fn["other"] or sites))), fn.loc(sites[0][0]))
+    from lib import field_replacement_sites
+    assigned = [x for x in field_replacement_sites(W, RESPONDER, qfield) if "assigned" in x[2]]
+    ctx.check(group, "queue-in-lockstep/never-reassigned", not assigned, "Responder.requests is never assigned after construction",
+              "; ".join(d for f, b, d in assigned[:2]), assigned[0][0].loc(assigned[0][1]) if assigned else None)
+    ctx.floor(group + "-lockstep", n, 3, "functions that change the request queue (add_classic_request, add_ietf_request, reset)")
